@@ -875,15 +875,35 @@ AccessLists == {<<>>} \cup (IF Has(BERLIN)
                                  \cup {<<[addr |-> c1, keys |-> <<0>>], [addr |-> c1, keys |-> <<1>>]>>,
                                         <<[addr |-> c2, keys |-> <<>>], [addr |-> c1, keys |-> <<1>>], [addr |-> c2, keys |-> <<0, 1>>]>>}
                             ELSE {})
-ChooseTx == m.ph = "tx" /\ Len(m.res) < MaxTx /\
-    \E to \in TxTargets, value \in (IF TxVariety THEN {0, 1} ELSE TxValues), gas \in TxGas, price \in GasPrices,
-       al \in (IF TxVariety THEN AccessLists ELSE {<<>>}), prio \in (IF TxVariety /\ Has(LONDON) THEN {-1, 0, 2} ELSE {-1}),
-       blobs \in (IF TxVariety /\ Has(CANCUN) THEN {0, 2} ELSE {0}), auths \in (IF TxVariety /\ Has(PRAGUE) THEN AuthLists ELSE {<<>>}),
-       cb \in Coinbases :
+\* The transaction is chosen in two steps when TxVariety is on -- first its *shape* (access list, 1559 tip, blobs,
+\* authorization list), then addressee, value, gas, price, coinbase and data -- so that TLC's simulator, which
+\* enumerates every successor before it picks one, faces the sum and not the product of the two choice spaces.
+\* The set of transactions is the same as with one step.
+Shapes == IF TxVariety
+          THEN {sh \in [al : AccessLists, prio : (IF Has(LONDON) THEN {-1, 0, 2} ELSE {-1}),
+                        blobs : (IF Has(CANCUN) THEN {0, 2} ELSE {0}), auths : (IF Has(PRAGUE) THEN AuthLists ELSE {<<>>})] :
+                   /\ sh.blobs > 0 => (sh.prio >= 0 /\ sh.auths = <<>>)        \* (the shape-level part of ValidTx)
+                   /\ sh.auths # <<>> => sh.prio >= 0}
+          ELSE {[al |-> <<>>, prio |-> -1, blobs |-> 0, auths |-> <<>>]}
+ChooseShape == m.ph = "tx" /\ TxVariety /\ Len(m.res) < MaxTx /\
+    \E sh \in Shapes : m' = [m EXCEPT !.ph = "tx2", !.tx = [@ EXCEPT !.al = sh.al, !.prio = sh.prio, !.blobs = sh.blobs, !.auths = sh.auths]]
+TxWith(sh, to, value, gas, price, cb, data) ==
+    [to |-> to, value |-> value, gas |-> gas, price |-> price, data |-> data, al |-> sh.al, prio |-> sh.prio,
+     blobs |-> sh.blobs, auths |-> sh.auths, cb |-> cb, from |-> Sender]
+ChooseRest(sh) ==
+    \E to \in TxTargets, value \in (IF TxVariety THEN {0, 1} ELSE TxValues), gas \in TxGas, price \in GasPrices, cb \in Coinbases :
       \E data \in (IF to = 0 THEN TxInit ELSE IF TxVariety THEN TxData ELSE {<<>>}) :
-        LET tx == [to |-> to, value |-> value, gas |-> gas, price |-> price, data |-> data, al |-> al, prio |-> prio,
-                   blobs |-> blobs, auths |-> auths, cb |-> cb, from |-> Sender] IN
+        LET tx == TxWith(sh, to, value, gas, price, cb, data) IN
         ValidTx(m, tx) /\ m' = StartTx(m, tx)
+NoRest(sh) ==
+    \A to \in TxTargets, value \in (IF TxVariety THEN {0, 1} ELSE TxValues), gas \in TxGas, price \in GasPrices, cb \in Coinbases :
+      \A data \in (IF to = 0 THEN TxInit ELSE IF TxVariety THEN TxData ELSE {<<>>}) :
+        ~ValidTx(m, TxWith(sh, to, value, gas, price, cb, data))
+ChooseTx == Len(m.res) < MaxTx /\
+    IF m.ph = "tx2" THEN ChooseRest(m.tx)
+    ELSE m.ph = "tx" /\ ~TxVariety /\ ChooseRest([al |-> <<>>, prio |-> -1, blobs |-> 0, auths |-> <<>>])
+\* a shape for which no valid transaction exists in this state is given back
+Abandon == m.ph = "tx2" /\ NoRest(m.tx) /\ m' = [m EXCEPT !.ph = "tx"]
 
 \* A transaction that validation rejects (its sender cannot pay gas limit * price): no effect at all,
 \* whatever the sender and however often it is submitted (C02, C31).  Senders: a poor EOA, an empty account.
@@ -902,7 +922,7 @@ Emit == PrintT("REPLAY " \o ToJson([fork |-> Fork, world0 |-> m.world0, txs |-> 
                                       sender |-> Sender, coinbase |-> Coinbase]))
 Finish == m.ph = "tx" /\ Len(m.res) >= 1 /\ ~m.cut /\ m' = [m EXCEPT !.ph = "done"] /\ Emit
 
-Next == PickKind \/ AddSnippet \/ PlanStep \/ EndSetup \/ ChooseTx \/ RejectedTx \/ Run \/ Finish
+Next == PickKind \/ AddSnippet \/ PlanStep \/ EndSetup \/ ChooseShape \/ ChooseTx \/ Abandon \/ RejectedTx \/ Run \/ Finish
 Spec == Init /\ [][Next]_vars
 View == m
 
